@@ -208,7 +208,6 @@ Section WK.
                 | DictOf kk =>
                   match raw with
                   | JObj members => do l' <- mapM (dict_entry (pk f) kk (f_kind fl)) members; Ok (MDict l')
-                  | JStr [] | JArr [] => Ok (MDict [])
                   | _ => reject
                   end
                 end = Ok x -> wk x).
@@ -216,8 +215,6 @@ Section WK.
       - eapply IH; eassumption.
       - eapply list_items_wk; eassumption.
       - destruct raw as [|b|z|a e|s|l|ms]; try discriminate H.
-        + destruct s; [|discriminate H]. injection H as <-. intros c fs Hin. destruct Hin.
-        + destruct l; [|discriminate H]. injection H as <-. intros c fs Hin. destruct Hin.
         + destruct (mapM (dict_entry (pk f) kk (f_kind fl)) ms) as [l'|e] eqn:Em; cbn [bind] in H; [|discriminate H].
           injection H as <-. intros c fs Hin. cbn [nodes] in Hin. apply in_flat_map in Hin.
           destruct Hin as [kv' [Hy Hn]]. destruct (mapM_ok_in _ _ _ _ _ Em kv' Hy) as [kv [_ Hx]].
@@ -241,7 +238,6 @@ Section WK.
                 | DictOf kk =>
                   match raw with
                   | JObj members => do l' <- mapM (dict_entry (pk f) kk (f_kind fl)) members; Ok (MDict l')
-                  | JStr [] | JArr [] => Ok (MDict [])
                   | _ => reject
                   end
                 end = Ok (MList items) -> forallb (keyed_item kf) items = true).
@@ -253,8 +249,6 @@ Section WK.
         injection H as <-. apply forallb_forall. intros y Hy.
         destruct (mapM_ok_in _ _ _ _ _ Em y Hy) as [x [_ Hx]]. exact (keyed_kind_item kf _ _ _ _ Hk Hx).
       - destruct raw as [|b|z|a e|s|l|ms]; try discriminate H.
-        + destruct s; discriminate H.
-        + destruct l; discriminate H.
         + destruct (mapM _ ms); cbn [bind] in H; discriminate H. }
     destruct raw; try (apply K; exact H).
     destruct (f_required fl); discriminate H.
